@@ -806,6 +806,25 @@ func c03r6func(p *Prog, r *Reporter, fn *ssa.Function) {
 				}
 			}
 		}
+		// an initialised-to-zero loop variable that is only ever overwritten with unrelated values and is the function's
+		// result: a running total whose additions were lost
+		if hasZero && !hasSum && len(foreign) > 0 {
+			overwrittenTotal := false
+			for _, ph := range groups[root] {
+				if inLoop(ph.Block()) && reachesReturnConv(ph) {
+					overwrittenTotal = true
+				}
+			}
+			if overwrittenTotal {
+				n++
+				what := root.Comment
+				if what == "" {
+					what = "total"
+				}
+				r.Bad(name, fmt.Sprintf("running total %s #%d", what, n), p.Pos(root.Pos()), "the value returned starts at 0 before a loop and is overwritten in it with "+exprString(foreign[0])+" instead of being added to: only the last table counts")
+				continue
+			}
+		}
 		if !hasZero || !hasSum || counterOnly {
 			continue
 		}
@@ -912,4 +931,36 @@ func c03r7func(p *Prog, r *Reporter, fn *ssa.Function) int {
 		}
 	}
 	return n
+}
+
+// reachesReturnConv: the value reaches a Return through phis and conversions.
+func reachesReturnConv(v ssa.Value) bool {
+	seen := map[ssa.Value]bool{}
+	var walk func(x ssa.Value) bool
+	walk = func(x ssa.Value) bool {
+		if seen[x] || x.Referrers() == nil {
+			return false
+		}
+		seen[x] = true
+		for _, ref := range *x.Referrers() {
+			switch y := ref.(type) {
+			case *ssa.Return:
+				return true
+			case *ssa.Phi:
+				if walk(y) {
+					return true
+				}
+			case *ssa.Convert:
+				if walk(y) {
+					return true
+				}
+			case *ssa.ChangeType:
+				if walk(y) {
+					return true
+				}
+			}
+		}
+		return false
+	}
+	return walk(v)
 }
